@@ -450,7 +450,7 @@ namespace jsoncons {
           return is_absolute() && !encoded_authority().empty();
         }
 
-        uri base() const noexcept 
+        uri base() const // not noexcept: the constructor validates its parts and may throw
         { 
             return uri{uri_encoded_part, scheme(), encoded_userinfo(), host(), port(), encoded_path(), 
                 jsoncons::string_view{}, jsoncons::string_view{}};
